@@ -82,16 +82,27 @@ Proof.
       rewrite IH. rewrite (row_fill_step _ _ _ _ _ S). reflexivity.
 Qed.
 
-Lemma bar_rows_solid_ok n : forall scr ystart ww w c,
-  0 <= ww -> I32_MIN <= ystart -> ystart + Z.of_nat n * ww <= I32_MAX ->
-  exists scr', bar_rows_solid n scr ystart ww w c = Ok scr' /\ length scr' = length scr.
+(* a row starting at or beyond the end of the screen changes nothing: the extra test on [len] in bar_rows_* is the same
+   `x_start >= screen.len() -> break` guard, evaluated once for the row *)
+Lemma row_fill_guard scr len ystart vals : len = Z.of_nat (length scr) ->
+  (if (ystart <? 0) || (len <=? ystart) then scr else row_fill scr (Z.to_nat ystart) vals) =
+  (if ystart <? 0 then scr else row_fill scr (Z.to_nat ystart) vals).
 Proof.
-  induction n as [|n IH]; intros scr ystart ww w c Hw Hlo Hhi; simpl.
+  intros ->. destruct (ystart <? 0) eqn:A; [reflexivity|]. simpl.
+  destruct (Z.of_nat (length scr) <=? ystart) eqn:B; [|reflexivity].
+  apply Z.leb_le in B. apply Z.ltb_ge in A. symmetry. apply row_fill_beyond. lia.
+Qed.
+
+Lemma bar_rows_solid_ok n : forall scr len ystart ww w c,
+  0 <= ww -> I32_MIN <= ystart -> ystart + Z.of_nat n * ww <= I32_MAX ->
+  exists scr', bar_rows_solid n scr len ystart ww w c = Ok scr' /\ length scr' = length scr.
+Proof.
+  induction n as [|n IH]; intros scr len ystart ww w c Hw Hlo Hhi; simpl.
   - eauto.
   - rewrite chk_ok by (unfold I32_MIN, I32_MAX in *; nia). simpl.
-    destruct (IH (if ystart <? 0 then scr else row_fill scr (Z.to_nat ystart) (repeat c w)) (ystart + ww) ww w c) as [scr' [E L]];
+    destruct (IH (if (ystart <? 0) || (len <=? ystart) then scr else row_fill scr (Z.to_nat ystart) (repeat c w)) len (ystart + ww) ww w c) as [scr' [E L]];
       [lia|unfold I32_MIN in *; lia|nia|].
-    exists scr'. split; [exact E|]. rewrite L. destruct (ystart <? 0); [reflexivity|apply row_fill_length].
+    exists scr'. split; [exact E|]. rewrite L. destruct ((ystart <? 0) || (len <=? ystart)); [reflexivity|apply row_fill_length].
 Qed.
 
 Lemma idx_ok {A} site (l : list A) i : 0 <= i < Z.of_nat (length l) -> exists v, idx site l i = Ok v /\ nth_error l (Z.to_nat i) = Some v.
@@ -100,19 +111,19 @@ Proof.
   destruct (nth_error_some_lt l (Z.to_nat i)) as [v E]; [lia|]. rewrite E. eauto.
 Qed.
 
-Lemma bar_rows_pattern_ok n : forall scr ystart ww w pattern ypat mask fillc bk,
+Lemma bar_rows_pattern_ok n : forall scr len ystart ww w pattern ypat mask fillc bk,
   0 <= ww -> I32_MIN <= ystart -> ystart + Z.of_nat n * ww <= I32_MAX -> length pattern = 8%nat -> 0 <= ypat < 8 ->
-  exists scr', bar_rows_pattern n scr ystart ww w pattern ypat mask fillc bk = Ok scr' /\ length scr' = length scr.
+  exists scr', bar_rows_pattern n scr len ystart ww w pattern ypat mask fillc bk = Ok scr' /\ length scr' = length scr.
 Proof.
-  induction n as [|n IH]; intros scr ystart ww w pattern ypat mask fillc bk Hw Hlo Hhi LP HY; simpl.
+  induction n as [|n IH]; intros scr len ystart ww w pattern ypat mask fillc bk Hw Hlo Hhi LP HY; simpl.
   - eauto.
   - destruct (idx_ok SITE_PATTERN_INDEX pattern ypat) as [pat [E _]]; [rewrite LP; simpl; lia|]. rewrite E. simpl.
     rewrite chk_ok by (unfold I32_MIN, I32_MAX in *; nia). simpl.
-    destruct (IH (if ystart <? 0 then scr else row_fill scr (Z.to_nat ystart) (pat_vals w pat mask fillc bk)) (ystart + ww) ww w
+    destruct (IH (if (ystart <? 0) || (len <=? ystart) then scr else row_fill scr (Z.to_nat ystart) (pat_vals w pat mask fillc bk)) len (ystart + ww) ww w
                  pattern (Z.rem (ypat + 1) 8) mask fillc bk) as [scr' [E' L]];
       [lia|unfold I32_MIN in *; lia|nia|exact LP| |].
     { pose proof (Z.rem_bound_pos (ypat + 1) 8). lia. }
-    exists scr'. split; [exact E'|]. rewrite L. destruct (ystart <? 0); [reflexivity|apply row_fill_length].
+    exists scr'. split; [exact E'|]. rewrite L. destruct ((ystart <? 0) || (len <=? ystart)); [reflexivity|apply row_fill_length].
 Qed.
 
 (* ---------- records ---------- *)
@@ -155,14 +166,14 @@ Proof.
     - replace (Z.to_nat h) with 0%nat by lia. unfold I32_MAX, RB, WMAX in *. nia.
     - rewrite Z2Nat.id by lia. unfold I32_MAX, RB, WMAX, PMAX in *. nia. }
   destruct (fill_style s =? 1)%N.
-  - destruct (bar_rows_solid_ok (Z.to_nat h) (screen s) (t * win_w s + l) (win_w s) (Z.to_nat w) (fill_color s)) as [scr [E L]];
+  - destruct (bar_rows_solid_ok (Z.to_nat h) (screen s) (Z.of_nat (length (screen s))) (t * win_w s + l) (win_w s) (Z.to_nat w) (fill_color s)) as [scr [E L]];
       [lia|unfold I32_MIN, RB in *; nia|exact HB|].
     rewrite E. cbn [bind]. eauto.
   - destruct (get_fill_pattern_ok s I) as [p [EP LPP]]. rewrite EP. cbn [bind].
     destruct (h <=? 0); [exists (screen s); rewrite upd_screen_id; auto|].
     pose proof (Z.rem_bound_pos l 8 ltac:(lia) ltac:(lia)).
     replace (Z.rem l 8 <? 0) with false by (symmetry; apply Z.ltb_ge; lia).
-    destruct (bar_rows_pattern_ok (Z.to_nat h) (screen s) (t * win_w s + l) (win_w s) (Z.to_nat w) p (Z.rem t 8)
+    destruct (bar_rows_pattern_ok (Z.to_nat h) (screen s) (Z.of_nat (length (screen s))) (t * win_w s + l) (win_w s) (Z.to_nat w) p (Z.rem t 8)
                 (N.shiftr 128 (Z.to_N (Z.rem l 8))) (fill_color s) (bkcolor s)) as [scr [E L]];
       [lia|unfold I32_MIN, RB in *; nia|exact HB|exact LPP|apply Z.rem_bound_pos; lia|].
     rewrite E. cbn [bind]. eauto.
